@@ -33,7 +33,7 @@ ASSUMPTIONS = [
     "line-step budget: 20x the maximum observed on the pinned tree's fault-free documents, linear in expanded document size",
 ]
 
-BIASES = ["path", "transform", "colour", "length", "points", "viewbox", "number", "use", "container", "used", "edge", "style"]
+BIASES = ["path", "transform", "colour", "length", "points", "viewbox", "number", "use", "container", "used", "edge", "style", "absent", "clip"]
 STEP_K = 250
 STEP_C = 50000
 SIZES = [1, 2, 3, 5, 7, 16, 64, 1000, None]
@@ -48,16 +48,16 @@ def generate(seed, index, tier):
     ch = core.Chooser(seed)
     heavy = index % 5 == 0
     doc = gd.gen_doc(ch, max_elems=ch.int(3, 12), max_depth=3, use_heavy=heavy, extra_kinds=index % 3 == 1)
-    st = index % 24
+    st = index % 29  # prime: every bias meets every other index-derived stratum (steps, poison, heavy, extra kinds)
     case = {"faults": []}
-    if st == 23:
+    if st == 28:
         bias = "control"
         nf = 0
     else:
-        bias = BIASES[st % 12]
+        bias = BIASES[st % 14]
         if heavy and ch.coin(0.6):
             bias = ch.choice(["in-used", "in-used", "use", "used"])
-        nf = 1 if st < 12 else ch.int(2, 3)
+        nf = 1 if st < 14 else ch.int(2, 3)
     if nf:
         case["faults"] = gd.apply_faults(ch, doc, nf, bias)
     # sentinels: state-sensitive siblings right after a faulted element
